@@ -60,7 +60,7 @@ AnnotationKinds == {"documentation", "since", "proposed", "deprecated", "typeNam
 Schema == JsonDeserialize(IF "LSP_SCHEMA" \in DOMAIN IOEnv THEN IOEnv.LSP_SCHEMA ELSE "/repo/generator/lsp.schema.json")
 Defs == {dn \in DOMAIN Schema.definitions : "properties" \in DOMAIN Schema.definitions[dn]}
 KeysOf(dn) == DOMAIN Schema.definitions[dn].properties
-GOps == {"change", "drop", "add", "rekind", "append", "prepend", "drop_last", "drop_first", "swap_ends", "clear", "dup_last", "change_last"}
+GOps == {"change", "drop", "add", "rekind", "to_array", "to_empty_array", "append", "prepend", "drop_last", "drop_first", "swap_ends", "clear", "dup_last", "change_last"}
 \* keys the property statement does not speak about for equality (annotations): no verdict demanded
 AnnotationKeys == {"documentation", "since", "sinceTags", "proposed", "deprecated", "typeName", "supportsCustomValues"}
 
